@@ -8,7 +8,7 @@
    [EndsD i dp dt]        : one more [next] answers Done at that cost. *)
 From Coq Require Import List ZArith Bool Arith.
 From YV Require Import Common.Corr Model.Queries Model.Streams
-  Lemmas.StreamsMono Lemmas.StreamsSteps Lemmas.StreamsPipeline.
+  Lemmas.StreamsMono Lemmas.StreamsSteps Lemmas.StreamsPipeline Lemmas.StreamsPipeline2.
 Import ListNotations.
 
 (* fuel only bounds the search for an answer: an answer, once given, is final *)
@@ -98,25 +98,36 @@ Theorem C14_short_circuit : forall pr pre v n i dp dt i', StepsD i (pre ++ [v]) 
 Proof. exact find_first_decides. Qed.
 
 (* ---- composition along a pipeline ------------------------------------------------------ *)
-(* [need_all] composes the per-operator demand functions over the LIST semantics of the
-   inspected source prefix; [tks_all] likewise for lambda applications.  For every pipeline
-   of select/where/skip/take/takeWhile/skipWhile/enumerate/memorize over the endless source,
-   every start value, every k (within what the inspected prefix determines) and every state:
-   the first k results are produced, with finite fuel, at EXACTLY need_all pulls (so
-   <= need + 1) and tks_all applications, independently of everything beyond the prefix.
-   `_partial`: the composed statement does not yet range over append/concat, distinct, zip,
-   accumulate, insert, delete, replace, slice, selectMany and join's outer side (their
-   per-operator lemmas above, or the correspondence only, cover them), nor over a pipeline
-   that ends before k results (C14_take and C14_take_while give those ends per operator). *)
+(* [xneed_all] composes the per-operator demand functions over the LIST semantics of the
+   inspected source prefix; [xtks_all] likewise for lambda applications.  For every pipeline
+   of select/where/skip/take/takeWhile/skipWhile/enumerate/memorize/append(concat, +)/
+   accumulate(with or without seed)/limiter over the endless source, every start value,
+   every k (within what the inspected prefix determines) and every state: the first k results
+   are produced, with finite fuel, at EXACTLY xneed_all pulls (so <= need + 1) and xtks_all
+   applications, independently of everything beyond the prefix.
+   `_partial`: the composed statement does not yet range over distinct, zip, insert, delete,
+   replace, slice, selectMany and join's outer side (per-operator lemmas above, or the
+   correspondence only, cover them), nor over a pipeline that ends before k results
+   (C14_take and C14_take_while give those ends per operator). *)
 Theorem C14_bound_partial : forall ops k0 n k s,
   let xs := src_prefix k0 n in
-  k <= length (outs_all ops xs) ->
+  k <= length (xouts_all ops xs) ->
   exists fuel s' i',
-    run fuel s (build_all ops (Src k0)) k = (s', firstn k (outs_all ops xs), Running i') /\
-    pulls s' = pulls s + need_all ops xs k /\
-    pulls s' <= pulls s + need_all ops xs k + 1 /\
-    ticks s' = ticks s + tks_all ops xs k.
-Proof. exact pipeline_demand_run. Qed.
+    run fuel s (xbuild_all ops (Src k0)) k = (s', firstn k (xouts_all ops xs), Running i') /\
+    pulls s' = pulls s + xneed_all ops xs k /\
+    pulls s' <= pulls s + xneed_all ops xs k + 1 /\
+    ticks s' = ticks s + xtks_all ops xs k.
+Proof. exact xpipeline_demand_run. Qed.
+
+(* apart from where / skipWhile (whose demand is the position of the k-th hit) the demand of
+   an operator is uniform in the data: k, k - 1, or n + k for skip n *)
+Theorem C14_need_uniform : forall o xs k,
+  match o with
+  | XBase (OWhere _) | XBase (OSkipWhile _) => True
+  | XBase (OSkip a) => xneed o xs k <= a + k
+  | _ => xneed o xs k <= k
+  end.
+Proof. exact xneed_uniform. Qed.
 
 (* state-free form *)
 Theorem C14_demand : forall ops k0 n k,
@@ -126,13 +137,14 @@ Theorem C14_demand : forall ops k0 n k,
 Proof. exact pipeline_demand. Qed.
 
 (* each lambda is applied at most once per element its operator consumed *)
-Theorem C14_ticks_per_operator : forall o xs k, k <= length (outs o xs) -> tks o xs k <= need o xs k.
-Proof. exact tks_le_need. Qed.
+Theorem C14_ticks_per_operator : forall o xs k, k <= length (xouts o xs) -> xtks o xs k <= xneed o xs k + 1.
+Proof. exact xtks_le_need. Qed.
 
 (* non-vacuity: sequence().where($ mod 3 = 0).select($ + 1).take(2) needs 6 source elements *)
 Example C14_example :
   need_all [OWhere (LModEq 3 0); OSelect (LAdd 1); OTake 2] (src_prefix 1 20) 2 = 6 /\
   outs_all [OWhere (LModEq 3 0); OSelect (LAdd 1); OTake 2] (src_prefix 1 20) = [VInt 4; VInt 7] /\
+  xneed_all [XBase (OWhere (LGt 2)); XAccumulate L2Add (Some (VInt 10)); XBase (OSkip 1)] (src_prefix 0 20) 2 = 5 /\
   eval_kcase {| k_start := 1; k_stages := [SWhere (LModEq 3 0); SSelect (LAdd 1)]; k_take := Some 2;
                 k_vals := ONone; k_pulls := 0; k_ticks := 0 |} = (mkst 6 8, OVal (VList false [VInt 4; VInt 7])).
 Proof. vm_compute. repeat split. Qed.
